@@ -66,6 +66,9 @@ func runC09Walk(k int, rng *Rng) CaseResult {
 	defer w.Cleanup()
 	called := map[string]bool{}
 	c := func(name string, f func()) {
+		if w.failed() {
+			return // e.g. a leaked lock was reported: the next call would block forever
+		}
 		called[name] = true
 		w.step++
 		w.logf("%s", name)
@@ -89,6 +92,21 @@ func runC09Walk(k int, rng *Rng) CaseResult {
 	c("DB.InsertOrUpdate", func() { w.db.InsertOrUpdate(objs[0]) })
 	c("DB.InsertOrUpdateMany", func() { w.db.InsertOrUpdateMany(objs[1], objs[2]) })
 	c("DB.InsertOrUpdateBulk", func() { w.db.InsertOrUpdateBulk(sod.ToObjectChan([]*Rec{objs[3], objs[4], objs[5]}), 2) })
+	// settings replaced on the live handle (the running flusher must stop cleanly)
+	if cfg.Async != 0 {
+		nc := cloneCfg(cfg)
+		nc.Threshold, nc.Timeout = 5, 300*time.Millisecond
+		c("DB.Create", func() { w.db.Create(rec(), schemaFor(nc, rec())) })
+		for i := 0; i < 3; i++ {
+			clockTick()
+			w.takeLockViolations("flusher")
+		}
+		time.Sleep(2 * time.Millisecond) // let a flusher that is returning run its exit hook
+		w.takeLockViolations("flusher")
+		c("DB.InsertOrUpdate", func() { objs[0].I++; w.db.InsertOrUpdate(objs[0]) })
+		clockTick()
+		w.takeLockViolations("flusher")
+	}
 	c("DB.Schema", func() { w.db.Schema(rec()) })
 	c("DB.Get", func() { x := rec(); x.Initialize(objs[0].UUID()); w.db.Get(x) })
 	c("DB.GetByUUID", func() { w.db.GetByUUID(rec(), objs[1].UUID()) })
